@@ -7,7 +7,7 @@
       i     (processors) InstantiationAware
       s     (processors) SmartInstantiationAware (InstantiationAware + GetEarlyBeanReference)
       markers   loaders:    !  LoadConfig fails      +  non-empty config      *  non-empty config that SetConfig rejects
-                runners:    !  Run fails
+                runners:    !  Run fails      e  zero-size Go type (no effect on the model)
                 processors: !  Before… fails   ?  Before… returns nil   ^  After… fails   ~  After… returns nil
                             z  LazyInit (definition.LazyInitComponent): appended to the chain as registered, at its sorted
                                position (delegate:51 skips the factory lookup); every other processor is fetched from the factory
@@ -21,6 +21,11 @@
                plain participants print as `n<id>` for loaders (registration order is defined) and `n` otherwise
         `SC L tok* P tok* R tok*`         → the same start with the probe in a circular reference (one early-reference request):
                `L:… B:… I:… P:… A:… R:… G:… E:ok|err`   (G = GetEarlyBeanReference log of the smart processors)
+        `SB L tok* P tok* R tok*`         → a start with two watched components (ordprobe, ordtwin) and processors that may SUPPLY an
+               instance from PostProcessBeforeInstantiation (markers b: for ordprobe, d: for ordtwin, %: fails there; r: answers
+               PostProcessAfterInitialization with a wrapper):
+               `L:… B:… C1 N:… I:… P:… A:… F:… C2 N:… I:… P:… A:… F:… R:… E:ok|err`   (N = PostProcessBeforeInstantiation log,
+               F = what the component finally is: `raw` | `sup.<supplier>`, then `+<wrapper>`…; `-` when the start failed)
         `Q op (/ op)*`,  op = `S tok*` (SetLoaders) | `A tok*` (AddLoaders) | `I` (Initialize)
                                           → one `L:… B:… E:ok|err` per Initialize, joined by ` | `  (`-` when there is none);
                loader ids run over the whole line
@@ -159,6 +164,45 @@ def showStart (cyc : Bool) (g : StartLog Tok) : String :=
   (if cyc then " G:" ++ showList "," false g.early else "") ++
   " E:" ++ (if g.err then "err" else "ok")
 
+/-- what a watched component of an `SB` start is: the registered instance (`sup = none`) or the stand-in a processor
+    supplied (`some` its printed token), and the wrappers put around it (innermost first) -/
+structure Comp where
+  sup : Option String
+  wraps : List String
+
+/-- PostProcessBeforeInstantiation of the harness' processors for the watched component whose supply marker is `m`
+    (`b` ordprobe, `d` ordtwin): `%` fails, the supply marker hands out a stand-in -/
+def biCb (m : Char) (t : Tok) : Res Comp :=
+  if t.marks.contains '%' then .err
+  else if t.marks.contains m then .val { sup := some (showTok false t), wraps := [] }
+  else .nil
+
+def beforeCbB (t : Tok) (c : Comp) : Res Comp :=
+  if t.marks.contains '!' then .err else if t.marks.contains '?' then .nil else .val c
+
+/-- marker `r`: the processor answers with a wrapper around what it was given -/
+def afterCbB (t : Tok) (c : Comp) : Res Comp :=
+  if t.marks.contains '^' then .err else if t.marks.contains '~' then .nil
+  else if t.marks.contains 'r' then .val { c with wraps := c.wraps ++ [showTok false t] }
+  else .val c
+
+def showComp (c : Comp) : String :=
+  (match c.sup with | none => "raw" | some s => "sup." ++ s) ++ String.join (c.wraps.map ("+" ++ ·))
+
+/-- one `C<k> N:… I:… P:… A:… F:…` group per watched component; a component the start did not reach shows empty logs -/
+def showCompLog (ok : Bool) (k : Nat) (r : Option (CompLog Tok × Option Comp)) : String :=
+  let g : CompLog Tok := match r with | some x => x.1 | none => {}
+  let f := match r with
+    | some (_, some c) => if ok then showComp c else "-"
+    | _ => "-"
+  " C" ++ toString k ++ " N:" ++ showList "," false g.binst ++ " I:" ++ showList "," false (firsts g.inst) ++
+  " P:" ++ showList "," false g.before ++ " A:" ++ showList "," false g.after ++ " F:" ++ f
+
+def showStartB (g : StartLogB Tok Comp) : String :=
+  "L:" ++ showList "," true (firsts g.loads) ++ " B:" ++ showList "," true (seconds g.loads) ++
+  showCompLog (!g.err) 1 g.comps[0]? ++ showCompLog (!g.err) 2 g.comps[1]? ++
+  " R:" ++ showList "," false g.runs ++ " E:" ++ (if g.err then "err" else "ok")
+
 def handle (line : String) : String :=
   match (line.splitOn " ").filter (· != "") with
   | "Q" :: ws =>
@@ -177,6 +221,15 @@ def handle (line : String) : String :=
       | some l, some p, some r =>
         showStart true (startC theSort Tok.part loadRes (resolveIn (sortOrdered theSort Tok.part p)) Tok.inst (fun _ => .skip)
                    beforeCb afterCb (fun t => t.marks.contains '!') true Tok.smart (fun _ _ => some ()) l p r)
+      | _, _, _ => "bad-line"
+    | none => "bad-line"
+  | "SB" :: ws =>
+    match sections ws with
+    | some (ls, ps, rs) =>
+      match parseToks ls 0, parseToks ps 0, parseToks rs 0 with
+      | some l, some p, some r =>
+        showStartB (startB theSort Tok.part loadRes (resolveIn (sortOrdered theSort Tok.part p)) true Tok.inst biCb (fun _ => .skip)
+                   beforeCbB afterCbB (fun t => t.marks.contains '!') (fun _ => { sup := none, wraps := [] }) ['b', 'd'] l p r)
       | _, _, _ => "bad-line"
     | none => "bad-line"
   | "D" :: toks =>
